@@ -150,7 +150,7 @@ func c09Writers() {
 				if v2 {
 					continue
 				}
-				what = "message id 300 on a v1 link"
+				what = "message id 70000 on a v1 link"
 				err = write(&hd.MessageVerifHi{X: 1, Y: 2})
 			}
 			rejected++
@@ -322,7 +322,7 @@ func init() {
 		Horizon:  40 * 365 * 24 * time.Hour,
 		Body:     c09Body,
 		Rule: "one evaluation = one of: (a) a history of 1..760 writes through streamwriter.Writer or frame.Writer.WriteMessage (v1/v2, " +
-			"key, component id set/unset; decoded and raw messages; rejected writes - id outside the dialect, foreign type, nil, id 300 " +
+			"key, component id set/unset; decoded and raw messages; rejected writes - id outside the dialect, foreign type, nil, id 70000 " +
 			"on v1 - interleaved at drawn positions) with every emitted frame checked by the reference; (b) one cell of the " +
 			"initialisation matrix (version missing/1/2 x system id 0/1/2 x key) for streamwriter.Writer and Node; (c) a whole node with " +
 			"1..6 channels, 1..4 concurrent writers (up to 400 writes each incl. rejected ones), heartbeats, stream requests answering " +
